@@ -42,6 +42,7 @@ pub fn generate(prop: &str, tier: &str, seed: u64, outdir: &str) {
         "C11" => gen_c11(&mut out, &mut rng, thorough),
         "C01" | "C03" | "C04" | "C05" | "C08" => gen_hist_prop(prop, &mut out, &mut rng, thorough),
         "C12" => gen_c12(&mut out, &mut rng, thorough),
+        "C16" => gen_c16(&mut out, &mut rng, thorough),
         "C10" => gen_c10(&mut out, &mut rng, thorough),
         "C06" => gen_c06(&mut out, &mut rng, thorough),
         "C20" => gen_c20(&mut out, &mut rng, thorough),
@@ -1116,5 +1117,43 @@ fn gen_c20(out: &mut Out, rng: &mut Rng, thorough: bool) {
     };
     for _ in 0..cfg.sessions {
         crate::hist::gen_session(out, rng, &cfg);
+    }
+}
+
+// ------------------------------------------------------------------------------------
+// C16: read-only sessions
+
+fn gen_c16(out: &mut Out, rng: &mut Rng, thorough: bool) {
+    let cfg = crate::hist::HistCfg {
+        sessions: 0, max_steps: 12, non_ascii: true, streams: true, summary: true, invalid: false,
+        key_updates: false, reopen: false, raw: false, selects: false,
+    };
+    let n = if thorough { 8000 } else { 400 };
+    for _ in 0..n {
+        // build a package with some content, save it, reopen it
+        crate::hist::gen_session(out, rng, &cfg);
+        out.req("reopen", format!("reopen {}", rng.pick(&crate::hist::CLOSE_MODES)));
+        // read-only calls
+        let k = rng.below(12);
+        for _ in 0..k {
+            match rng.below(8) {
+                0 => out.req("ro_snapshot", "snapshot".into()),
+                1 => out.req("ro_streams", "streams".into()),
+                2 => out.req("ro_stream_read", format!("stream_read {}", hex_of_str(*rng.pick(&["logo", "Icon.1", "x", "nope"])))),
+                3 => out.req("ro_has", format!("has_stream {}", hex_of_str(*rng.pick(&["logo", "x", "bin data"])))),
+                4 => out.req("ro_has", "has_sig".into()),
+                5 => {
+                    let t = *rng.pick(&["A", "B", "Tbl3", "_Validation", "_Columns", "Missing"]);
+                    out.req("ro_select", format!("select SEL 0 - T {}", hex_of_str(t)));
+                }
+                6 => {
+                    let a = *rng.pick(&["A", "B", "_Tables"]);
+                    let b = *rng.pick(&["A", "B", "_Columns"]);
+                    out.req("ro_join", format!("select SEL 0 - {} SEL 0 - T {} SEL 0 - T {} I1", rng.pick(&["IJ", "LJ"]), hex_of_str(a), hex_of_str(b)));
+                }
+                _ => out.req("ro_select", format!("select SEL 1 {} - T {}", hex_of_str("K"), hex_of_str("A"))),
+            }
+        }
+        out.req("readonly_close", format!("@readonly_close {}", rng.pick(&crate::hist::CLOSE_MODES)));
     }
 }
